@@ -658,8 +658,10 @@ func CreatorsFromCreateEvent(createEvent PDU) (creators []string) {
 	var content CreateContent
 	err := json.Unmarshal(createEvent.Content(), &content)
 	if err != nil {
-		// should not be possible as we already have made the PDU
-		panic("invalid create event content: " + string(createEvent.JSON()))
+		// Event parsing does not validate the content, so a create event with e.g. an
+		// additional_creators value that is not a list of strings does get here. Such an
+		// event fails the auth checks on its own; only its sender counts as a creator.
+		return creators
 	}
 	creators = append(creators, content.AdditionalCreators...)
 	return creators
